@@ -139,6 +139,13 @@ def _gen_trange(ctx):
         types = (SPIN_TYPES if spin else BOOL_TYPES) + ["dict"]
         yield {"spin": spin, "type": "dict", "terms": {}, "p": (0.5, 0.01)}
         yield {"spin": spin, "type": "dict", "terms": {(): 3}, "p": (0.5, 0.01)}
+        # plain dicts may store explicit zero coefficients: a model all of whose non-constant entries are 0 is a
+        # model without variables
+        for terms in ({(0,): 0}, {(0, 1): 0.0, (): 4}, {('a',): 0, ('a', 'b'): 0}, {('a',): 0, ('b',): 2}):
+            for p in probs[:3]:
+                yield {"spin": spin, "type": "dict", "terms": terms, "p": p}
+        for terms in gen_models(rng, n // 6, LABELS[:3], 2, [0, 0, 1, -2], max_terms=3, raw=True, allow_zero=True):
+            yield {"spin": spin, "type": "dict", "terms": terms, "p": rng.choice(probs)}
         for t in types:
             deg = 2 if t.startswith("Q") else 3
             labels = labels_for(t, 4) if t != "dict" else LABELS[:4]
